@@ -55,6 +55,10 @@ Definition run_c19 (l : list Z) : list Z :=
   | [31; len; w; h] => [if from_vec_ok len w h then 1 else 0]
   | [32; len; w; h] => match from_bytes_ok len w h with Some n => [n] | None => [-1] end
   | [33; w; h; x; y] => match pixel_index w h x y with Some i => [i] | None => [-1] end
+  | [40; r; g; b; a] =>
+      (* Color::from_rgba: every channel through NormalizedF32::new (finite, 0 <= x <= 1; a NaN fails both comparisons) *)
+      let ok x := F32.le F32.zero (fz x) && F32.le (fz x) F32.one in
+      if ok r && ok g && ok b && ok a then [r; g; b; a] else [-1]
   | [34; w; h; a; b; c; d] =>
       match ir_from_xywh a b c d with
       | None => [-2]
